@@ -24,6 +24,17 @@ Data only, measured on the live code (C04 / C07):
                 foreign random stream (numpy.random.* / random.* calls and imports,
                 scipy `.rvs(` without `random_state=`), with the allow-list below.
 
+* `classState`  ast scan of epsie/ for class-level (and module-level) attributes bound to a
+                mutable value (dict / list / set literals, comprehensions, dict(), list(),
+                numpy.zeros(..), any constructor call) that the package mutates through an
+                instance (`self.X.update(..)`, `self.X[k] = v`, `.append`, `self.X += ..`,
+                `out=self.X`, ...) without rebinding `self.X = ...` earlier in the same
+                function, through the class (`cls.X..`, `type(self).X..`, `<Class>.X = ..`,
+                `setattr(cls, ..)`), through a local alias, or (module level) through `global`:
+                one object per process, reachable from every instance, in no pickle.  The
+                traversal behind `crossChain` does not descend into classes; this table is
+                its complement (C07_generated_no_shared_class_state).
+
 Deterministic and idempotent: sorted output, no addresses, no hash order, no line
 numbers, no wall clock; the file is only rewritten when its content changes.
 """
@@ -147,8 +158,14 @@ def make_plain(family, names, rng=None):
 
 
 def build_real(cfg, family='normal', model=None, pool=None, default_family=None, rng=None,
-               annealer=None, swap_interval=1, betas=None):
-    """Construct the real sampler that `cfg` describes. Returns (sampler, info)."""
+               annealer=None, swap_interval=1, betas=None, user_props=None, before_sampler=None,
+               reset_after_swap=False):
+    """Construct the real sampler that `cfg` describes. Returns (sampler, info).
+
+    `user_props`: hand these (already existing) proposal objects to the sampler instead of making
+    new ones (a script that builds two samplers from the same proposals); `before_sampler(props,
+    names)`: what the user does with the proposals before the sampler is constructed;
+    `reset_after_swap`: the PT sampler's option of that name."""
     from epsie import proposals as P
     from epsie.samplers import MetropolisHastingsSampler, ParallelTemperedSampler
     from epsie.chain.ptchain import DynamicalAnnealer
@@ -156,7 +173,7 @@ def build_real(cfg, family='normal', model=None, pool=None, default_family=None,
     if model is None:
         model = QuadModel(names)
     props = []
-    for p in cfg['props']:
+    for p in (cfg['props'] if user_props is None else []):
         if p[0] == 'plain':
             fam = family if isinstance(family, str) else family[len(props) % len(family)]
             pr = make_plain(fam, [names[i] for i in p[1]], rng)
@@ -171,6 +188,10 @@ def build_real(cfg, family='normal', model=None, pool=None, default_family=None,
                                    successive={names[ix]: True})
             pars = [names[i] for grp in inner for i in grp] + [names[ix]]
             props.append(P.NestedTransdimensional(pars, mp, inn, births, bit_generator=garg))
+    if user_props is not None:
+        props = list(user_props)
+    if before_sampler is not None:
+        before_sampler(props, names)
     kw = {}
     if default_family is not None:
         kw['default_proposal'] = default_family[0]
@@ -188,7 +209,8 @@ def build_real(cfg, family='normal', model=None, pool=None, default_family=None,
             betas = [1.0 / (2 ** t) for t in range(nt)]
         s = ParallelTemperedSampler(names, model, cfg['nchains'], numpy.array(betas),
                                     swap_interval=swap_interval, proposals=props,
-                                    adaptive_annealer=ann, seed=cfg['seed'], pool=pool, **kw)
+                                    adaptive_annealer=ann, seed=cfg['seed'], pool=pool,
+                                    reset_after_swap=bool(reset_after_swap), **kw)
     return s, {'names': names, 'model': model, 'user_props': props, 'annealer': ann}
 
 
@@ -743,12 +765,404 @@ def scan_sites():
 
 
 # --------------------------------------------------------------------------
+# ast scan: class-level / module-level mutable state
+# --------------------------------------------------------------------------
+#
+# An attribute bound in a class body (or a name bound at module level) to a mutable value is one
+# object per *process*: every instance of the class (every chain's proposals, every sampler made in
+# the process) reaches the same object, a deep copy or a pickle of an instance does not contain it,
+# and a worker process has its own (as of the moment the worker was created).  The pickle-style
+# traversal `reachable` above does not descend into classes and modules (pickle stores them by
+# reference), so such an object is a sharing edge that the measured `crossChain` column cannot see.
+# This scan lists every such attribute that the package *mutates*: through an instance
+# (`self.X.update(..)`, `self.X[k] = v`, `self.X += ..`, `.append`, ...) without having rebound it on
+# the instance earlier in the same function (`self.X = ...`), through the class (`cls.X..`,
+# `type(self).X..`, `<Class>.X..`, including plain rebinding `cls.X = ..` of any class attribute), or
+# through a local alias.  Attributes that are only read, or rebound per instance before they are
+# changed, are not listed.
+
+ALLOW_CLASS_STATE = {
+    # (file of the mutation, owner, attribute, mutating function): 'justification'
+}
+
+MUTATORS = {'update', 'setdefault', 'pop', 'popitem', 'clear', 'append', 'extend', 'insert', 'remove', 'sort',
+            'reverse', 'add', 'discard', 'difference_update', 'intersection_update',
+            'symmetric_difference_update', 'appendleft', 'extendleft', 'popleft', 'rotate', 'fill', 'put',
+            'itemset', 'resize', 'partition', 'setfield', 'setflags', 'byteswap', 'move_to_end',
+            '__setitem__', '__delitem__', '__iadd__', '__ior__', '__imul__'}
+IMMUTABLE_CALLS = {'tuple', 'frozenset', 'int', 'float', 'complex', 'str', 'bytes', 'bool', 'property',
+                   'staticmethod', 'classmethod', 'namedtuple', 'collections.namedtuple', 'object', 'range',
+                   'slice', 'type', 'abs', 'len', 'min', 'max', 'sum', 'round', 'getattr', 'super',
+                   'numpy.float64', 'numpy.int64', 'numpy.log', 'numpy.exp', 'numpy.sqrt', 'float.fromhex',
+                   'math.log', 'math.exp', 'math.sqrt', 're.compile', 'abstractmethod'}
+
+
+def mutable_value(e):
+    """None, or a short description of why the value of a class-level / module-level binding is a
+    mutable object (literal containers, comprehensions, and every call that is not known to return
+    an immutable value: dict(), list(), set(), numpy.zeros(..), defaultdict(..), SomeClass(), ...)."""
+    if isinstance(e, ast.Dict):
+        return 'dict literal'
+    if isinstance(e, ast.List):
+        return 'list literal'
+    if isinstance(e, ast.Set):
+        return 'set literal'
+    if isinstance(e, (ast.ListComp, ast.DictComp, ast.SetComp)):
+        return 'comprehension'
+    if isinstance(e, ast.Call):
+        fn = dotted(e.func) or '<call>'
+        fn = fn.replace('np.', 'numpy.', 1) if fn.startswith('np.') else fn
+        if fn in IMMUTABLE_CALLS:
+            return None
+        return 'call ' + fn
+    if isinstance(e, ast.BinOp):
+        return mutable_value(e.left) or mutable_value(e.right)
+    if isinstance(e, ast.IfExp):
+        return mutable_value(e.body) or mutable_value(e.orelse)
+    return None
+
+
+def _attr_chain(node):
+    """Descend through subscripts / attributes / starred to the attribute accesses underneath:
+    yields every ast.Attribute and the final ast.Name on the way down (outermost first)."""
+    while True:
+        if isinstance(node, ast.Attribute):
+            yield node
+            node = node.value
+        elif isinstance(node, (ast.Subscript, ast.Starred)):
+            node = node.value
+        elif isinstance(node, ast.Name):
+            yield node
+            return
+        else:
+            return
+
+
+def _is_class_ref(node, class_names):
+    """`cls`, `type(x)`, `x.__class__`, or the name of a class of the package."""
+    if isinstance(node, ast.Name):
+        return node.id == 'cls' or node.id in class_names
+    if isinstance(node, ast.Attribute):
+        return node.attr == '__class__' or node.attr in class_names
+    if isinstance(node, ast.Call):
+        return dotted(node.func) == 'type' and len(node.args) == 1
+    return False
+
+
+def class_state_sites(repo=None):
+    """Sorted list of (file, owner, attr, value text, mutation text, allowed, [lines])."""
+    repo = repo or common.REPO
+    root = os.path.join(repo, 'epsie')
+    trees = []
+    for dp, dn, files in sorted(os.walk(root)):
+        dn.sort()
+        for f in sorted(files):
+            if not f.endswith('.py') or f == '_version.py':
+                continue
+            path = os.path.join(dp, f)
+            rel = os.path.relpath(path, repo)
+            try:
+                trees.append((rel, ast.parse(open(path).read())))
+            except SyntaxError:
+                continue            # reported by scan_sites as `unparsable`
+    # pass 1: class-level and module-level bindings
+    class_names = set()
+    class_attrs = {}                # attr -> [(file, class, value description or None, value text)]
+    module_names = {}               # (file, name) -> (description, value text)
+    for rel, tree in trees:
+        for n in ast.walk(tree):
+            if isinstance(n, ast.ClassDef):
+                class_names.add(n.name)
+                for b in n.body:
+                    tv = []
+                    if isinstance(b, ast.Assign):
+                        tv = [(t, b.value) for t in b.targets]
+                    elif isinstance(b, ast.AnnAssign) and b.value is not None:
+                        tv = [(b.target, b.value)]
+                    for t, v in tv:
+                        for tt in (t.elts if isinstance(t, (ast.Tuple, ast.List)) else [t]):
+                            if isinstance(tt, ast.Name):
+                                class_attrs.setdefault(tt.id, []).append((rel, n.name, mutable_value(v), src(v)[:60]))
+        for b in tree.body:
+            tv = []
+            if isinstance(b, ast.Assign):
+                tv = [(t, b.value) for t in b.targets]
+            elif isinstance(b, ast.AnnAssign) and b.value is not None:
+                tv = [(b.target, b.value)]
+            for t, v in tv:
+                if isinstance(t, ast.Name) and mutable_value(v):
+                    module_names[(rel, t.id)] = (mutable_value(v), src(v)[:60])
+    mutable_attrs = {a: [d for d in defs if d[2]] for a, defs in class_attrs.items()}
+    mutable_attrs = {a: d for a, d in mutable_attrs.items() if d}
+    found = {}
+
+    def hit(rel, fname, owner_file, owner, attr, value, how, line):
+        found.setdefault((rel, owner_file, owner, attr, value, fname), []).append((line, how))
+
+    def scan_function(rel, fn, qual, mod_mutables):
+        nodes = [n for n in ast.walk(fn)]
+        # instance rebinding `recv.X = ...` (plain assignment) : (receiver text, attr) -> first line
+        rebound = {}
+        local_names = {a.arg for a in fn.args.args + fn.args.kwonlyargs + fn.args.posonlyargs}
+        declared_global = set()
+        for n in nodes:
+            if isinstance(n, ast.Global):
+                declared_global |= set(n.names)
+        for n in nodes:
+            targets = []
+            if isinstance(n, ast.Assign):
+                targets = n.targets
+            elif isinstance(n, ast.AnnAssign) and n.value is not None:
+                targets = [n.target]
+            elif isinstance(n, (ast.For, ast.comprehension)):
+                targets = [n.target]
+            elif isinstance(n, ast.With):
+                targets = [i.optional_vars for i in n.items if i.optional_vars is not None]
+            for t in targets:
+                for tt in ast.walk(t):
+                    if isinstance(tt, ast.Attribute) and isinstance(tt.ctx, ast.Store) and tt is t:
+                        key = (src(tt.value), tt.attr)
+                        rebound[key] = min(rebound.get(key, n.lineno), n.lineno)
+                    if isinstance(tt, ast.Name) and isinstance(tt.ctx, ast.Store) and tt.id not in declared_global:
+                        local_names.add(tt.id)
+        # local aliases `d = recv.X` / `d = recv.X[k]` of a tracked attribute (or of a module-level mutable)
+        aliases = {}
+        for n in nodes:
+            if isinstance(n, ast.Assign) and len(n.targets) == 1 and isinstance(n.targets[0], ast.Name):
+                for a in _attr_chain(n.value):
+                    if isinstance(a, ast.Attribute) and a.attr in mutable_attrs:
+                        if (src(a.value), a.attr) not in rebound or rebound[(src(a.value), a.attr)] > n.lineno:
+                            aliases[n.targets[0].id] = (a, n.lineno)
+                        break
+
+        def tracked(expr, line):
+            """[(owner_file, owner, attr, value, via)] of the shared objects `expr` denotes (or is part of)."""
+            out = []
+            for a in _attr_chain(expr):
+                if isinstance(a, ast.Attribute):
+                    recv = a.value
+                    if _is_class_ref(recv, class_names) and a.attr in class_attrs:
+                        # through the class: shared whatever the value was bound to
+                        for f_, c_, d_, v_ in class_attrs[a.attr]:
+                            out.append((f_, 'class ' + c_, a.attr, v_, ''))
+                        return out
+                    if a.attr in mutable_attrs:
+                        first = rebound.get((src(recv), a.attr))
+                        if first is not None and first <= line:
+                            return out          # rebound on this receiver earlier in the function
+                        for f_, c_, d_, v_ in mutable_attrs[a.attr]:
+                            out.append((f_, 'class ' + c_, a.attr, v_, ''))
+                        return out
+                elif isinstance(a, ast.Name):
+                    if a.id in aliases and aliases[a.id][1] <= line:
+                        al = aliases[a.id][0]
+                        for f_, c_, d_, v_ in mutable_attrs[al.attr]:
+                            out.append((f_, 'class ' + c_, al.attr, v_, 'alias %s = %s; ' % (a.id, src(al))))
+                        return out
+                    if a.id in mod_mutables and (a.id not in local_names or a.id in declared_global):
+                        d_, v_ = mod_mutables[a.id]
+                        out.append((rel, 'module', a.id, v_, ''))
+                        return out
+            return out
+
+        for n in nodes:
+            line = getattr(n, 'lineno', 0)
+            if isinstance(n, (ast.Assign, ast.AugAssign, ast.AnnAssign, ast.Delete)):
+                if isinstance(n, ast.Assign):
+                    tgts = n.targets
+                elif isinstance(n, ast.Delete):
+                    tgts = n.targets
+                else:
+                    tgts = [n.target]
+                flat = []
+                for t in tgts:
+                    flat += list(t.elts) if isinstance(t, (ast.Tuple, ast.List)) else [t]
+                for t in flat:
+                    if isinstance(t, ast.Subscript):
+                        for o in tracked(t.value, line):
+                            hit(rel, qual, o[0], o[1], o[2], o[3], o[4] + src(n)[:70], line)
+                    elif isinstance(t, ast.Attribute):
+                        # rebinding / augmented assignment of the attribute itself
+                        if _is_class_ref(t.value, class_names) and t.attr in class_attrs:
+                            for f_, c_, d_, v_ in class_attrs[t.attr]:
+                                hit(rel, qual, f_, 'class ' + c_, t.attr, v_, src(n)[:70], line)
+                        elif isinstance(n, ast.AugAssign) and t.attr in mutable_attrs:
+                            first = rebound.get((src(t.value), t.attr))
+                            if first is None or first > line:
+                                for f_, c_, d_, v_ in mutable_attrs[t.attr]:
+                                    hit(rel, qual, f_, 'class ' + c_, t.attr, v_, src(n)[:70], line)
+                        elif isinstance(t.value, (ast.Attribute, ast.Subscript)):
+                            # `self.X.field = v`: writes into the object X denotes
+                            for o in tracked(t.value, line):
+                                hit(rel, qual, o[0], o[1], o[2], o[3], o[4] + src(n)[:70], line)
+                    elif isinstance(t, ast.Name) and isinstance(n, ast.AugAssign) and t.id not in declared_global:
+                        for o in tracked(t, line):
+                            hit(rel, qual, o[0], o[1], o[2], o[3], o[4] + src(n)[:70], line)
+                    elif isinstance(t, ast.Name) and t.id in declared_global and not isinstance(n, ast.Delete):
+                        # a module-level name rebound from inside a function: process-level state
+                        # whatever its value
+                        v_ = mod_mutables[t.id][1] if t.id in mod_mutables else '<module-level name>'
+                        hit(rel, qual, rel, 'module', t.id, v_, 'global %s; %s' % (t.id, src(n)[:60]), line)
+            if isinstance(n, ast.Call):
+                if isinstance(n.func, ast.Attribute) and n.func.attr in MUTATORS:
+                    for o in tracked(n.func.value, line):
+                        hit(rel, qual, o[0], o[1], o[2], o[3], o[4] + src(n)[:70], line)
+                for k in n.keywords:
+                    if k.arg == 'out':
+                        for o in tracked(k.value, line):
+                            hit(rel, qual, o[0], o[1], o[2], o[3], o[4] + src(n)[:70], line)
+                if dotted(n.func) in ('setattr', 'delattr') and n.args and _is_class_ref(n.args[0], class_names) \
+                        and not (isinstance(n.args[0], ast.Name) and n.args[0].id in local_names
+                                 and n.args[0].id != 'cls'):
+                    attr = n.args[1].value if len(n.args) > 1 and isinstance(n.args[1], ast.Constant) else '<computed>'
+                    hit(rel, qual, rel, 'class ' + src(n.args[0]), str(attr), '<set at run time>', src(n)[:70], line)
+
+    for rel, tree in trees:
+        mod_mutables = {name: v for (f, name), v in module_names.items() if f == rel}
+
+        def visit(node, prefix):
+            for b in ast.iter_child_nodes(node):
+                if isinstance(b, (ast.FunctionDef, ast.AsyncFunctionDef)):
+                    scan_function(rel, b, prefix + b.name, mod_mutables)      # nested defs: covered by ast.walk
+                elif isinstance(b, ast.ClassDef):
+                    visit(b, prefix + b.name + '.')
+                elif isinstance(b, (ast.If, ast.Try, ast.With, ast.For, ast.While)):
+                    visit(b, prefix)
+        visit(tree, '')
+    out = []
+    for (rel, ofile, owner, attr, value, fname), hits in sorted(found.items()):
+        how = '%s: %s: %s' % (rel, fname, min(hits)[1])          # one row per function: its first mutation
+        key = (rel, owner, attr, fname)
+        out.append((ofile, owner, attr, value, how, key in ALLOW_CLASS_STATE, sorted({l for l, _ in hits})))
+    return sorted(out, key=lambda r: r[:5])
+
+
+SELFTEST_SOURCE = '''
+import numpy
+from collections import defaultdict
+REGISTRY = {}
+READONLY = {'a': 1}
+COUNT = 0
+CACHE = []
+def register(name, obj):
+    REGISTRY[name] = obj
+def lookup(name):
+    return READONLY[name]
+def bump():
+    global COUNT
+    COUNT += 1
+def shadow():
+    CACHE = []
+    CACHE.append(1)
+class A:
+    readonly = {'x': 1}
+    perinst = {}
+    shared = {}
+    lst = []
+    arr = numpy.zeros(3)
+    dd = defaultdict(list)
+    tup = (1, 2)
+    counter = 0
+    viaalias = {}
+    outarr = numpy.zeros(2)
+    late = {}
+    other = {}
+    copied = {}
+    def __init__(self):
+        self.perinst = {}
+        self.perinst['k'] = 1
+        self.perinst.update(a=2)
+        print(self.readonly['x'], self.readonly.get('x'), len(self.lst), sorted(self.lst))
+    def m1(self):
+        self.shared.update(a=1)
+        self.lst.append(3)
+        self.arr[0] = 1.0
+        self.dd['k'].append(1)
+        numpy.add(self.arr, 1, out=self.outarr)
+    def m2(self):
+        d = self.viaalias
+        d['x'] = 1
+    def m3(self):
+        self.late['x'] = 1
+        self.late = {}
+    def m4(self):
+        type(self).counter += 1
+        self.__class__.tup = (3,)
+    @classmethod
+    def m5(cls):
+        cls.other['k'] = 1
+    def m7(self):
+        self.tup = (4,)
+        self.counter += 1
+        for k, v in self.shared.items():
+            pass
+        y = self.copied.copy()
+        y['q'] = 1
+class B(A):
+    def m(self):
+        self.copied = dict(self.copied)
+        self.copied['mine'] = 1
+'''
+SELFTEST_FLAGGED = {('module', 'REGISTRY'), ('module', 'COUNT'), ('class A', 'shared'), ('class A', 'lst'),
+                    ('class A', 'arr'), ('class A', 'dd'), ('class A', 'outarr'), ('class A', 'viaalias'),
+                    ('class A', 'late'), ('class A', 'counter'), ('class A', 'tup'), ('class A', 'other')}
+
+
+def class_state_selftest():
+    """The scan on a source whose answer is known: every kind of mutation it claims to see is seen,
+    and reads / per-instance rebinding / copies / shadowing locals are not reported.  Returns an
+    error text or None (goes to `probeErrors`: an obligation of C04_generated_no_probe_errors)."""
+    import shutil
+    tmp = tempfile.mkdtemp(prefix='classscan')
+    try:
+        os.makedirs(os.path.join(tmp, 'epsie'))
+        with open(os.path.join(tmp, 'epsie', 'mod.py'), 'w') as fh:
+            fh.write(SELFTEST_SOURCE)
+        got = {(r[1], r[2]) for r in class_state_sites(tmp)}
+    finally:
+        shutil.rmtree(tmp, ignore_errors=True)
+    if got != SELFTEST_FLAGGED:
+        return 'class-state scan self-test: missed %s, wrongly reported %s' % (
+            sorted(SELFTEST_FLAGGED - got), sorted(got - SELFTEST_FLAGGED))
+    return None
+
+
+def class_level_bindings():
+    """For the evidence: how many class-level / module-level bindings the scan looked at."""
+    n_cls = n_mut = 0
+    root = os.path.join(common.REPO, 'epsie')
+    for dp, dn, files in sorted(os.walk(root)):
+        for f in sorted(files):
+            if not f.endswith('.py'):
+                continue
+            try:
+                tree = ast.parse(open(os.path.join(dp, f)).read())
+            except SyntaxError:
+                continue
+            for n in ast.walk(tree):
+                if isinstance(n, ast.ClassDef):
+                    for b in n.body:
+                        if isinstance(b, (ast.Assign, ast.AnnAssign)) and getattr(b, 'value', None) is not None:
+                            n_cls += 1
+                            n_mut += bool(mutable_value(b.value))
+            for b in tree.body:
+                if isinstance(b, (ast.Assign, ast.AnnAssign)) and getattr(b, 'value', None) is not None:
+                    n_cls += 1
+                    n_mut += bool(mutable_value(b.value))
+    return {'class_and_module_level_bindings': n_cls, 'bound_to_a_mutable_value': n_mut}
+
+
+# --------------------------------------------------------------------------
 
 def render():
     variant, errs = measure_variant()
     rows, errs2 = measure_rows()
     errs += errs2
     sites = scan_sites()
+    cstate = class_state_sites()
+    e = class_state_selftest()
+    if e:
+        errs.append(e)
     out = ['-- GENERATED by harness/gen_sharing.py from the current /repo source. Do not edit.',
            'import EpsieModel.Streams', 'namespace Epsie.Generated.Sharing', 'open Epsie.Streams', '',
            '/-- which of the code variants of EpsieModel/Streams.lean /repo is today (measured) -/',
@@ -769,8 +1183,17 @@ def render():
             'def scanSites : List ScanSite := [',
             ',\n'.join('  { file := %s, func := %s, kind := %s, detail := %s, allowed := %s }' % (
                 lstr(a), lstr(b), lstr(c), lstr(d), lbool(al)) for a, b, c, d, al, _ in sites),
+            ']', '',
+            '/-- every class-level (or module-level) attribute of epsie/ bound to a mutable value that the',
+            '    package mutates through an instance (without rebinding it on the instance first), through',
+            '    the class or through an alias: state shared by all objects of a process, not part of a',
+            '    pickled / deep-copied object; `allowed` = on the justified allow-list of gen_sharing.py -/',
+            'def classState : List ClassState := [',
+            ',\n'.join('  { file := %s, owner := %s, attr := %s, value := %s, mutation := %s, allowed := %s }' % (
+                lstr(a), lstr(b), lstr(c), lstr(d), lstr(e), lbool(al)) for a, b, c, d, e, al, _ in cstate),
             ']', '', 'end Epsie.Generated.Sharing', '']
-    return '\n'.join(out), {'variant': variant, 'errors': errs, 'rows': rows, 'sites': sites}
+    return '\n'.join(out), {'variant': variant, 'errors': errs, 'rows': rows, 'sites': sites,
+                            'class_state': cstate, 'class_bindings': class_level_bindings()}
 
 
 def main(quiet=False):
@@ -787,10 +1210,11 @@ def main(quiet=False):
         os.chmod(tmp, 0o644)
         os.replace(tmp, OUT)
     if not quiet:
-        print('gen_sharing: variant=%s, %d sampler rows, %d scan sites (%d allowed), %d probe errors, %s' % (
-            ','.join('%s=%s' % kv for kv in sorted(info['variant'].items())), len(info['rows']),
-            len(info['sites']), sum(1 for s in info['sites'] if s[4]), len(info['errors']),
-            'rewritten' if changed else 'unchanged'))
+        print('gen_sharing: variant=%s, %d sampler rows, %d scan sites (%d allowed), %d mutated class-level '
+              'attributes, %d probe errors, %s' % (
+                  ','.join('%s=%s' % kv for kv in sorted(info['variant'].items())), len(info['rows']),
+                  len(info['sites']), sum(1 for s in info['sites'] if s[4]), len(info['class_state']),
+                  len(info['errors']), 'rewritten' if changed else 'unchanged'))
     return changed, info
 
 
